@@ -16,6 +16,14 @@ Proof. reflexivity. Qed.
 Lemma buffer_positive : 0 < N.to_nat buffer_size.
 Proof. unfold buffer_size. lia. Qed.
 
+(* the corruption check of RECFM_VB accepts a descriptor word that ends exactly at the end of the block
+   (offset + 4 <= len(block), fix eee0fb2); with the strict comparison this file stops compiling here *)
+Lemma rdw_fits_is_le : vb_rdw_fits_strict = false.
+Proof. reflexivity. Qed.
+
+Lemma rule_rdw_fits off L : rdw_fits vb_rdw_fits_strict off L = (off + 4 <=? L)%N.
+Proof. rewrite rdw_fits_is_le. reflexivity. Qed.
+
 (* ------------------------------------------------------------------ lists *)
 
 Lemma firstn_exact {A} (a b : list A) : firstn (length a) (a ++ b) = a.
@@ -187,19 +195,37 @@ Proof.
   induction b as [|r b IH]; [cbn; lia|]. rewrite block_body_cons, !app_length, rdw_length. cbn [length]. lia.
 Qed.
 
-Lemma walk_ok : forall b fuel off,
-  forallb (fun r => 1 <=? length r) b = true -> length b < fuel ->
-  walk fuel (off + N.of_nat (length (block_body b)))%N off (block_body b) = (map hdr_pair b, Done).
+(* One proof for both comparisons of the corruption check.  Under the comparison of the current tree
+   ([strict] = false) there is no condition on the records: a record without data bytes (length word 4) is walked
+   like any other, also when its descriptor word ends the block (off + 4 = L).  Under the strict comparison of the
+   tree before eee0fb2 every record must be non-empty - the rule the old [legal_block] had built in. *)
+Definition nonempty_recs (b : list (list N)) : bool := forallb (fun r => 1 <=? length r) b.
+Definition walkable (strict : bool) (b : list (list N)) : bool := negb strict || nonempty_recs b.
+
+Lemma walkable_cons strict r b : walkable strict (r :: b) = true ->
+  (strict = true -> 1 <= length r) /\ walkable strict b = true.
+Proof.
+  unfold walkable, nonempty_recs. destruct strict; cbn [negb orb forallb]; intros H.
+  - apply andb_prop in H as [Hr Hb]. apply Nat.leb_le in Hr. split; [intros _; exact Hr|exact Hb].
+  - split; [discriminate|reflexivity].
+Qed.
+
+Lemma walk_gen_ok strict : forall b fuel off, walkable strict b = true -> length b < fuel ->
+  walk_with strict fuel (off + N.of_nat (length (block_body b)))%N off (block_body b) = (map hdr_pair b, Done).
 Proof.
   induction b as [|r b IH]; intros fuel off H Hf; (destruct fuel as [|f]; [cbn in Hf; lia|]).
-  - cbn [block_body map concat length walk]. replace (off + N.of_nat 0)%N with off by lia.
+  - cbn [block_body map concat length walk_with]. replace (off + N.of_nat 0)%N with off by lia.
     rewrite N.eqb_refl. reflexivity.
-  - cbn [forallb] in H. apply andb_prop in H as [Hr Hb]. apply Nat.leb_le in Hr.
-    rewrite block_body_cons. cbn [walk].
+  - apply walkable_cons in H as [Hr Hb].
+    rewrite block_body_cons. cbn [walk_with].
     rewrite !app_length, rdw_length.
     set (L := (off + N.of_nat (4 + (length r + length (block_body b))))%N).
     destruct (off =? L)%N eqn:E1; [unfold L in E1; lia|].
-    destruct (off + 4 <? L)%N eqn:E2; [|unfold L in E2; lia].
+    assert (E2 : rdw_fits strict off L = true).
+    { unfold rdw_fits. destruct strict.
+      - specialize (Hr eq_refl). apply N.ltb_lt. unfold L. lia.
+      - apply N.leb_le. unfold L. lia. }
+    rewrite E2.
     rewrite firstn4_rdw, skipn4_rdw, unpack_rdw.
     destruct (len4 r =? 0)%N eqn:E3; [unfold len4 in E3; lia|].
     assert (Hsz : N.to_nat (len4 r) = length (rdw (len4 r) ++ r)).
@@ -211,13 +237,16 @@ Proof.
     rewrite IH by (try assumption; cbn in Hf; lia). reflexivity.
 Qed.
 
-Lemma walk_block_ok b :
-  forallb (fun r => 1 <=? length r) b = true -> walk_block (block_body b) = (map hdr_pair b, Done).
+Lemma walk_block_gen_ok strict b : walkable strict b = true ->
+  walk_block_with strict (block_body b) = (map hdr_pair b, Done).
 Proof.
-  intros H. unfold walk_block. pose proof (block_body_ge b).
+  intros H. unfold walk_block_with. pose proof (block_body_ge b).
   replace (N.of_nat (length (block_body b))) with (0 + N.of_nat (length (block_body b)))%N by lia.
-  apply walk_ok; [assumption|lia].
+  apply walk_gen_ok; [assumption|lia].
 Qed.
+
+Lemma walk_block_ok b : walk_block_with false (block_body b) = (map hdr_pair b, Done).
+Proof. apply walk_block_gen_ok. reflexivity. Qed.
 
 Lemma write_VB_cons b bs : write_VB (b :: bs) = rdw (N.of_nat (block_len b)) ++ block_body b ++ write_VB bs.
 Proof. unfold write_VB, write_block. cbn [map concat]. rewrite <- app_assoc. reflexivity. Qed.
@@ -235,35 +264,86 @@ Proof.
   rewrite read_nonneg, firstn_exact, skipn_exact. reflexivity.
 Qed.
 
-Lemma legal_block_recs b : legal_block b = true -> forallb (fun r => 1 <=? length r) b = true.
-Proof. unfold legal_block. intros H. apply andb_prop in H as [H _]. exact H. Qed.
-
-Lemma VB_loop_ok kind : forall bs fuel, legal_VB bs = true -> length bs < fuel ->
-  VB_loop fuel kind (write_VB bs) = (concat (map (map hdr_pair) bs), Done, []).
+Lemma VB_loop_gen_ok strict kind : forall bs fuel, forallb (walkable strict) bs = true -> length bs < fuel ->
+  VB_loop_with strict fuel kind (write_VB bs) = (concat (map (map hdr_pair) bs), Done, []).
 Proof.
   induction bs as [|b bs IH]; intros fuel H Hf; (destruct fuel as [|f]; [cbn in Hf; lia|]).
   - reflexivity.
-  - unfold legal_VB in H. cbn [forallb] in H. apply andb_prop in H as [Hb Hbs]. fold (legal_VB bs) in Hbs.
-    rewrite write_VB_cons. cbn [VB_loop]. rewrite firstn4_rdw, skipn4_rdw.
+  - cbn [forallb] in H. apply andb_prop in H as [Hb Hbs].
+    rewrite write_VB_cons. cbn [VB_loop_with]. rewrite firstn4_rdw, skipn4_rdw.
     destruct (rdw (N.of_nat (block_len b))) as [|h0 hs] eqn:Eh; [exfalso; eapply rdw_not_nil; eassumption|]. rewrite <- Eh.
-    rewrite unpack_rdw, read_block, walk_block_ok by (apply legal_block_recs; assumption).
+    rewrite unpack_rdw, read_block, walk_block_gen_ok by assumption.
     rewrite IH by (try assumption; cbn in Hf; lia). reflexivity.
+Qed.
+
+Lemma walkable_false bs : forallb (walkable false) bs = true.
+Proof. induction bs as [|b bs IH]; [reflexivity|]. cbn [forallb]. rewrite IH. reflexivity. Qed.
+
+Lemma VB_loop_ok kind bs fuel : length bs < fuel ->
+  VB_loop_with false fuel kind (write_VB bs) = (concat (map (map hdr_pair) bs), Done, []).
+Proof. apply VB_loop_gen_ok. apply walkable_false. Qed.
+
+(* either comparison: the record-level iterators read back every list of blocks the comparison can walk *)
+Lemma VB_iters_gen_ok strict kind bs : forallb (walkable strict) bs = true ->
+  VB_record_iter_with strict kind (write_VB bs) = (concat bs, Done, [])
+  /\ VB_rdw_iter_with strict kind (write_VB bs) = (map rdw_rec (concat bs), Done, []).
+Proof.
+  intros H. unfold VB_record_iter_with, VB_rdw_iter_with, VB_data_iter_with.
+  rewrite VB_loop_gen_ok; [|assumption|pose proof (write_VB_length bs); lia].
+  rewrite <- concat_map. unfold payloads, with_rdw. rewrite map_snd_hdr, map_cat_hdr. split; reflexivity.
+Qed.
+
+(* the rule of the tree before eee0fb2: the round trip held for blocks of non-empty records only *)
+Lemma VB_old_rule kind bs : forallb nonempty_recs bs = true ->
+  VB_record_iter_with true kind (write_VB bs) = (concat bs, Done, [])
+  /\ VB_rdw_iter_with true kind (write_VB bs) = (map rdw_rec (concat bs), Done, []).
+Proof. intros H. apply VB_iters_gen_ok. exact H. Qed.
+
+(* the round trip of the record-level iterators holds for EVERY list of blocks (as for V); [legal_VB] is what makes
+   the image a file (write_VB_bytes) and is kept as the hypothesis of the property theorems *)
+Lemma VB_data_iter_any kind bs :
+  VB_data_iter kind (write_VB bs) = (map hdr_pair (concat bs), Done, []).
+Proof.
+  unfold VB_data_iter. rewrite rdw_fits_is_le. unfold VB_data_iter_with.
+  rewrite VB_loop_ok; [|pose proof (write_VB_length bs); lia].
+  rewrite concat_map. reflexivity.
+Qed.
+
+Lemma VB_record_iter_any kind bs : VB_record_iter kind (write_VB bs) = (concat bs, Done, []).
+Proof.
+  unfold VB_record_iter, VB_record_iter_with. fold (VB_data_iter kind (write_VB bs)).
+  rewrite VB_data_iter_any. unfold payloads. rewrite map_snd_hdr. reflexivity.
+Qed.
+
+Lemma VB_rdw_iter_any kind bs : VB_rdw_iter kind (write_VB bs) = (map rdw_rec (concat bs), Done, []).
+Proof.
+  unfold VB_rdw_iter, VB_rdw_iter_with. fold (VB_data_iter kind (write_VB bs)).
+  rewrite VB_data_iter_any. unfold with_rdw. rewrite map_cat_hdr. reflexivity.
 Qed.
 
 Lemma VB_data_iter_ok kind bs : legal_VB bs = true ->
   VB_data_iter kind (write_VB bs) = (map hdr_pair (concat bs), Done, []).
-Proof.
-  intros H. unfold VB_data_iter. rewrite VB_loop_ok; [|assumption|pose proof (write_VB_length bs); lia].
-  rewrite concat_map. reflexivity.
-Qed.
+Proof. intros _. apply VB_data_iter_any. Qed.
 
 Lemma VB_record_iter_ok kind bs : legal_VB bs = true ->
   VB_record_iter kind (write_VB bs) = (concat bs, Done, []).
-Proof. intros H. unfold VB_record_iter. rewrite VB_data_iter_ok by assumption. unfold payloads. rewrite map_snd_hdr. reflexivity. Qed.
+Proof. intros _. apply VB_record_iter_any. Qed.
 
 Lemma VB_rdw_iter_ok kind bs : legal_VB bs = true ->
   VB_rdw_iter kind (write_VB bs) = (map rdw_rec (concat bs), Done, []).
-Proof. intros H. unfold VB_rdw_iter. rewrite VB_data_iter_ok by assumption. unfold with_rdw. rewrite map_cat_hdr. reflexivity. Qed.
+Proof. intros _. apply VB_rdw_iter_any. Qed.
+
+(* What fix eee0fb2 repaired: with the strict comparison of the tree before it (offset + 4 < len(block)) a record
+   without data bytes standing last in its block stops the reader with AssertionError after the records before it;
+   the same record first in the block, and the same file read with the comparison of the current tree, come back whole. *)
+Lemma VB_empty_last_old_refuted :
+  legal_VB [[[1; 2]; []]]%N = true
+  /\ VB_record_iter_with true 0 (write_VB [[[1; 2]; []]]%N) = ([[1; 2]]%N, Raised AssertionError, [])
+  /\ VB_rdw_iter_with true 0 (write_VB [[[1; 2]; []]]%N) = ([[0; 6; 0; 0; 1; 2]]%N, Raised AssertionError, [])
+  /\ VB_record_iter_with true 0 (write_VB [[[1; 2]; []]]%N) <> (concat [[[1; 2]; []]]%N, Done, [])
+  /\ VB_record_iter_with true 0 (write_VB [[[]; [1; 2]]]%N) = ([[]; [1; 2]]%N, Done, [])
+  /\ VB_record_iter_with false 0 (write_VB [[[1; 2]; []]]%N) = ([[1; 2]; []]%N, Done, []).
+Proof. repeat split; vm_compute; try reflexivity. intros H; discriminate H. Qed.
 
 Lemma B_loop_ok kind : forall bs fuel, length bs < fuel ->
   B_loop fuel kind (write_VB bs) = (map write_block bs, Done, []).
@@ -277,6 +357,12 @@ Qed.
 
 Lemma VB_bdw_iter_ok kind bs : VB_bdw_iter kind (write_VB bs) = (map write_block bs, Done, []).
 Proof. unfold VB_bdw_iter. apply B_loop_ok. pose proof (write_VB_length bs). lia. Qed.
+
+Lemma VB_iters_ok kind bs : legal_VB bs = true ->
+  VB_record_iter kind (write_VB bs) = (concat bs, Done, [])
+  /\ VB_rdw_iter kind (write_VB bs) = (map rdw_rec (concat bs), Done, [])
+  /\ VB_bdw_iter kind (write_VB bs) = (map write_block bs, Done, []).
+Proof. intros _. split; [apply VB_record_iter_any|]. split; [apply VB_rdw_iter_any|apply VB_bdw_iter_ok]. Qed.
 
 (* ------------------------------------------------------------------ RECFM_N, any element type, any buffer size *)
 
@@ -432,7 +518,7 @@ Lemma write_VB_bytes bs :
 Proof.
   induction bs as [|b bs IH]; intros HL HB; [reflexivity|].
   unfold legal_VB in HL. cbn [forallb] in HL, HB. apply andb_prop in HL as [Hb HL]. apply andb_prop in HB as [Bb HB].
-  unfold legal_block in Hb. apply andb_prop in Hb as [_ Hlen]. apply N.leb_le in Hlen.
+  unfold legal_block in Hb. apply N.leb_le in Hb. rename Hb into Hlen.
   rewrite write_VB_cons, !bytes_ok_app. rewrite (rdw_bytes _ Hlen), (block_body_bytes b Hlen Bb). apply IH; assumption.
 Qed.
 
@@ -502,22 +588,20 @@ Proof.
     cbn [firstn skipn length map]. rewrite ended_S. reflexivity.
 Qed.
 
-Lemma walk_take_ok : forall b fuel k off,
-  forallb (fun r => 1 <=? length r) b = true -> length b < fuel ->
-  walk_take fuel k (off + N.of_nat (length (block_body b)))%N off (block_body b)
+Lemma walk_take_ok : forall b fuel k off, length b < fuel ->
+  walk_take_with false fuel k (off + N.of_nat (length (block_body b)))%N off (block_body b)
   = (map hdr_pair (firstn k b), ended k (length b), k - length b).
 Proof.
-  induction b as [|r b IH]; intros fuel k off H Hf; (destruct fuel as [|f]; [cbn in Hf; lia|]).
+  induction b as [|r b IH]; intros fuel k off Hf; (destruct fuel as [|f]; [cbn in Hf; lia|]).
   - destruct k as [|k]; [reflexivity|].
-    cbn [block_body map concat length walk_take]. replace (off + N.of_nat 0)%N with off by lia.
+    cbn [block_body map concat length walk_take_with]. replace (off + N.of_nat 0)%N with off by lia.
     rewrite N.eqb_refl. reflexivity.
   - destruct k as [|k]; [reflexivity|].
-    cbn [forallb] in H. apply andb_prop in H as [Hr Hb]. apply Nat.leb_le in Hr.
-    rewrite block_body_cons. cbn [walk_take].
+    rewrite block_body_cons. cbn [walk_take_with].
     rewrite !app_length, rdw_length.
     set (L := (off + N.of_nat (4 + (length r + length (block_body b))))%N).
     destruct (off =? L)%N eqn:E1; [unfold L in E1; lia|].
-    destruct (off + 4 <? L)%N eqn:E2; [|unfold L in E2; lia].
+    unfold rdw_fits. destruct (off + 4 <=? L)%N eqn:E2; [|unfold L in E2; lia].
     rewrite firstn4_rdw, skipn4_rdw, unpack_rdw.
     destruct (len4 r =? 0)%N eqn:E3; [unfold len4 in E3; lia|].
     assert (Hsz : N.to_nat (len4 r) = length (rdw (len4 r) ++ r)).
@@ -526,38 +610,35 @@ Proof.
     replace (length (rdw (len4 r) ++ r) - 4) with (length r) by (rewrite app_length, rdw_length; lia).
     rewrite firstn_exact.
     replace L with ((off + len4 r) + N.of_nat (length (block_body b)))%N by (unfold L, len4; lia).
-    rewrite IH by (try assumption; cbn in Hf; lia). reflexivity.
+    rewrite IH by (cbn in Hf; lia). reflexivity.
 Qed.
 
 Lemma walk_take_block b k :
-  forallb (fun r => 1 <=? length r) b = true ->
-  walk_take (S (length (block_body b))) k (N.of_nat (length (block_body b))) 0%N (block_body b)
+  walk_take_with false (S (length (block_body b))) k (N.of_nat (length (block_body b))) 0%N (block_body b)
   = (map hdr_pair (firstn k b), ended k (length b), k - length b).
 Proof.
-  intros H. pose proof (block_body_ge b).
+  pose proof (block_body_ge b).
   replace (N.of_nat (length (block_body b))) with (0 + N.of_nat (length (block_body b)))%N at 1 by lia.
-  apply walk_take_ok; [assumption|lia].
+  apply walk_take_ok. lia.
 Qed.
 
 (* record-level pass over VB stopped at a block boundary: split_blocks says which blocks it covers *)
-Lemma VB_take_ok kind : forall bs fuel k now later,
-  legal_VB bs = true -> length bs < fuel -> split_blocks k bs = Some (now, later) ->
-  VB_take fuel k kind (write_VB bs)
+Lemma VB_take_with_ok kind : forall bs fuel k now later,
+  length bs < fuel -> split_blocks k bs = Some (now, later) ->
+  VB_take_with false fuel k kind (write_VB bs)
   = (map hdr_pair (concat now), ended k (length (concat bs)), write_VB later).
 Proof.
-  induction bs as [|b bs IH]; intros fuel k now later H Hf Hs; (destruct fuel as [|f]; [cbn in Hf; lia|]).
+  induction bs as [|b bs IH]; intros fuel k now later Hf Hs; (destruct fuel as [|f]; [cbn in Hf; lia|]).
   - cbn in Hs. injection Hs as <- <-. destruct k; reflexivity.
-  - unfold legal_VB in H. cbn [forallb] in H. apply andb_prop in H as [Hb Hbs]. fold (legal_VB bs) in Hbs.
-    pose proof (legal_block_recs b Hb) as Hrecs.
-    destruct k as [|k].
+  - destruct k as [|k].
     + cbn in Hs. injection Hs as <- <-. reflexivity.
     + cbn [split_blocks Nat.eqb] in Hs.
       destruct (length b <=? S k) eqn:Ek; [|discriminate]. apply Nat.leb_le in Ek.
       destruct (split_blocks (S k - length b) bs) as [[x y]|] eqn:Es; [|discriminate].
       cbn in Hs. injection Hs as <- <-.
-      rewrite write_VB_cons. cbn [VB_take]. rewrite firstn4_rdw, skipn4_rdw.
+      rewrite write_VB_cons. cbn [VB_take_with]. rewrite firstn4_rdw, skipn4_rdw.
       destruct (rdw (N.of_nat (block_len b))) as [|h0 hs] eqn:Eh; [exfalso; eapply rdw_not_nil; eassumption|]. rewrite <- Eh.
-      rewrite unpack_rdw, read_block, walk_take_block by assumption.
+      rewrite unpack_rdw, read_block, walk_take_block.
       rewrite firstn_all2 by lia.
       cbn [concat]. rewrite app_length, map_app.
       unfold ended. destruct (S k <=? length b) eqn:Ek2.
@@ -572,6 +653,12 @@ Proof.
         destruct (S k - length b <=? length (concat bs)) eqn:E3, (S k <=? length b + length (concat bs)) eqn:E4;
           try reflexivity; [apply Nat.leb_le in E3; apply Nat.leb_gt in E4; lia | apply Nat.leb_gt in E3; apply Nat.leb_le in E4; lia].
 Qed.
+
+Lemma VB_take_ok kind bs fuel k now later :
+  length bs < fuel -> split_blocks k bs = Some (now, later) ->
+  VB_take fuel k kind (write_VB bs)
+  = (map hdr_pair (concat now), ended k (length (concat bs)), write_VB later).
+Proof. unfold VB_take. rewrite rdw_fits_is_le. apply VB_take_with_ok. Qed.
 
 (* ------------------------------------------------------------------ one pass, then any sequence of passes *)
 
@@ -677,7 +764,7 @@ Qed.
 Lemma legal_VB_app_r a b : legal_VB (a ++ b) = true -> legal_VB b = true.
 Proof. unfold legal_VB. rewrite forallb_app. intros H. apply andb_prop in H as [_ H]. exact H. Qed.
 
-Lemma VB_pass_ok kind w k bs : legal_VB bs = true ->
+Lemma VB_pass_ok kind w k bs :
   if (w <=? 1)%N then
     forall now later, match k with Some n => split_blocks n bs | None => Some (bs, []) end = Some (now, later) ->
     exists f, VB_pass kind (w, k) (write_VB bs) = (map (render w) (concat now), f, write_VB later) /\ (f = Done \/ f = More)
@@ -686,17 +773,17 @@ Lemma VB_pass_ok kind w k bs : legal_VB bs = true ->
               = (map write_block (firstn (wanted k bs) bs), f, write_VB (skipn (wanted k bs) bs))
               /\ (f = Done \/ f = More).
 Proof.
-  intros HL. pose proof (write_VB_length bs) as Hlen.
+  pose proof (write_VB_length bs) as Hlen.
   destruct (w <=? 1)%N eqn:Hw.
   - intros now later Hs.
     destruct (w01 w Hw) as [-> | ->]; destruct k as [n|]; unfold VB_pass; cbn [N.eqb Pos.eqb].
     + rewrite (VB_take_ok kind bs _ n now later) by (try assumption; lia).
       unfold payloads. rewrite map_snd_hdr, render0. eexists; split; [reflexivity|apply ended_calm].
-    + injection Hs as <- <-. rewrite VB_record_iter_ok by assumption. rewrite render0.
+    + injection Hs as <- <-. rewrite VB_record_iter_any. rewrite render0.
       eexists; split; [reflexivity|left; reflexivity].
     + rewrite (VB_take_ok kind bs _ n now later) by (try assumption; lia).
       unfold with_rdw. rewrite map_cat_hdr. eexists; split; [reflexivity|apply ended_calm].
-    + injection Hs as <- <-. rewrite VB_rdw_iter_ok by assumption.
+    + injection Hs as <- <-. rewrite VB_rdw_iter_any.
       eexists; split; [reflexivity|left; reflexivity].
   - assert (H0 : (w =? 0)%N = false) by (apply N.leb_gt in Hw; lia).
     assert (H1 : (w =? 1)%N = false) by (apply N.leb_gt in Hw; lia).
@@ -705,13 +792,13 @@ Proof.
     + rewrite VB_bdw_iter_ok, firstn_all, skipn_all. eexists; split; [reflexivity|left; reflexivity].
 Qed.
 
-Lemma VB_passes_ok kind : forall ps bs e, legal_VB bs = true -> expect_passes_VB ps bs = Some e ->
+Lemma VB_passes_any kind : forall ps bs e, expect_passes_VB ps bs = Some e ->
   map items_of (run_passes (VB_pass kind) ps (write_VB bs)) = e
   /\ forallb calm (run_passes (VB_pass kind) ps (write_VB bs)) = true.
 Proof.
-  induction ps as [|[w k] ps IH]; intros bs e HL He.
+  induction ps as [|[w k] ps IH]; intros bs e He.
   - cbn in He. injection He as <-. split; reflexivity.
-  - cbn [expect_passes_VB] in He. pose proof (VB_pass_ok kind w k bs HL) as HP.
+  - cbn [expect_passes_VB] in He. pose proof (VB_pass_ok kind w k bs) as HP.
     destruct (w <=? 1)%N eqn:Hw.
     + destruct k as [n|].
       * destruct (split_blocks n bs) as [[now later]|] eqn:Es; [|discriminate].
@@ -719,26 +806,27 @@ Proof.
         cbn in He. injection He as <-.
         destruct (HP now later eq_refl) as (f & Hp & Hf).
         cbn [run_passes]. rewrite Hp. cbn [snd map forallb].
-        assert (HL' : legal_VB later = true).
-        { apply (legal_VB_app_r now). rewrite <- (split_blocks_app bs n now later Es). exact HL. }
-        destruct (IH _ _ HL' He') as [H1 H2]. rewrite H1, H2.
+        destruct (IH _ _ He') as [H1 H2]. rewrite H1, H2.
         split; [reflexivity|]. unfold calm. cbn [fst snd]. destruct Hf as [-> | ->]; reflexivity.
       * destruct (expect_passes_VB ps []) as [e'|] eqn:He'; [|discriminate].
         cbn in He. injection He as <-.
         destruct (HP bs [] eq_refl) as (f & Hp & Hf).
         cbn [run_passes]. rewrite Hp. cbn [snd map forallb].
-        destruct (IH _ _ (eq_refl : legal_VB [] = true) He') as [H1 H2]. rewrite H1, H2.
+        destruct (IH _ _ He') as [H1 H2]. rewrite H1, H2.
         split; [reflexivity|]. unfold calm. cbn [fst snd]. destruct Hf as [-> | ->]; reflexivity.
     + fold (wanted k bs) in He.
       destruct (expect_passes_VB ps (skipn (wanted k bs) bs)) as [e'|] eqn:He'; [|discriminate].
       cbn in He. injection He as <-.
       destruct HP as (f & Hp & Hf).
       cbn [run_passes]. rewrite Hp. cbn [snd map forallb].
-      assert (HL' : legal_VB (skipn (wanted k bs) bs) = true).
-      { apply (legal_VB_app_r (firstn (wanted k bs) bs)). rewrite firstn_skipn. exact HL. }
-      destruct (IH _ _ HL' He') as [H1 H2]. rewrite H1, H2.
+      destruct (IH _ _ He') as [H1 H2]. rewrite H1, H2.
       split; [reflexivity|]. unfold calm. cbn [fst snd]. destruct Hf as [-> | ->]; reflexivity.
 Qed.
+
+Lemma VB_passes_ok kind ps bs e : legal_VB bs = true -> expect_passes_VB ps bs = Some e ->
+  map items_of (run_passes (VB_pass kind) ps (write_VB bs)) = e
+  /\ forallb calm (run_passes (VB_pass kind) ps (write_VB bs)) = true.
+Proof. intros _. apply VB_passes_any. Qed.
 
 (* the resume statements in their plainest form: k = the number of records (blocks) of the first part *)
 Lemma V_resume kind rs1 rs2 :
